@@ -8,7 +8,11 @@ package gohbase
 //@ func gohbase.sleepAndIncreaseBackoff
 //@   requires sleepAndIncreaseBackoffOverride == nil
 //@   requires backoff >= 0
-//@   modifies X.slept, X.ctxdone
+//@   modifies X.slept, X.ctxdone, X.nsleeps
+//@   at call Observe#1 ghost nsleeps == ghost("nsleeps") + 1
+//@   ensures[C17] r1 == nil && backoff == 0 ==> ghost("nsleeps") == old(ghost("nsleeps"))
+//@   ensures[C17] r1 == nil && backoff > 0 ==> ghost("nsleeps") == old(ghost("nsleeps")) + 1 && r0 == schedNext(backoff)
+//@   ensures[C17] r1 != nil ==> ghost("nsleeps") == old(ghost("nsleeps"))
 //@   ensures[C17] r1 == nil && backoff == 0 ==> r0 == 16000000 && ghost("slept") == old(ghost("slept"))
 //@   ensures[C17] r1 == nil && 0 < backoff && backoff < 5000000000 ==> r0 == 2*backoff
 //@   ensures[C17] r1 == nil && 5000000000 <= backoff && backoff < 30000000000 ==> r0 == backoff + 5000000000
@@ -33,9 +37,15 @@ package gohbase
 //@ pred gohbase.idxInj(rpcs, rpcToRes) = forall(p, q, 0 <= p && p < q && q < len(rpcs), rpcToRes[rpcs[p]] != rpcToRes[rpcs[q]])
 //@ pred gohbase.retryClass(e) = typeis(e, "region.RetryableError") || typeis(e, "region.ServerError") || typeis(e, "region.NotServingRegionError")
 
+// reaction to a failed result (C04/C09): a region-level error marks the region and starts its establisher iff this caller
+// created the mark; a connection-level error takes the whole connection down; other errors change nothing
 //@ func gohbase.(*client).handleResultError
-//@   trusted "frame abstraction: its effects on the region / connection caches are summarised as the ghost X.regionstate (it does not touch batch results)"
-//@   modifies X.regionstate
+//@   requires reg != nil && rccNonNil(c.clients)
+//@   modifies X.regionstate, X.unavail, X.token, X.regclient, D.map[hrpc.RegionClient]map[hrpc.RegionInfo]struct{}, C.map[hrpc.RegionClient]map[hrpc.RegionInfo]struct{}
+//@   panics never[C09]
+//@   ensures[C04,C09] typeis(err, "region.NotServingRegionError") || typeis(err, "region.ServerError") ==> ghostat("unavail", reg) == 1
+//@   ensures[C09] forall(k, old(ghostat("unavail", k)) == 1 ==> ghostat("unavail", k) == 1)
+//@   ensures[C04] !typeis(err, "region.NotServingRegionError") && !typeis(err, "region.ServerError") ==> forall(k, ghostat("unavail", k) == old(ghostat("unavail", k)))
 
 //@ pred gohbase.wfcFrame(rpcs, results, rpcToRes, n) = forall(j, 0 <= j && j < len(results) && forall(k, 0 <= k && k < n, rpcToRes[rpcs[k]] != j), results[j].Msg == old(results[j].Msg) && results[j].Error == old(results[j].Error))
 //@ pred gohbase.wfcOK(rpcs, results, rpcToRes, n) = forall(k, 0 <= k && k < n, results[rpcToRes[rpcs[k]]].Error == nil)
@@ -54,9 +64,12 @@ package gohbase
 //@ func gohbase.(*client).waitForCompletion
 //@   requires idxOK(rpcs, results, rpcToRes) && idxInj(rpcs, rpcToRes)
 //@   requires forall(k, 0 <= k && k < len(rpcs), ghostat("retrymark", rpcs[k]) != ghost("round"))
-//@   modifies contents(results), X.regionstate, X.ctxdone, X.retrymark
+//@   modifies contents(results), X.regionstate, X.ctxdone, X.retrymark, X.unavail, X.token, X.regclient, D.map[hrpc.RegionClient]map[hrpc.RegionInfo]struct{}, C.map[hrpc.RegionClient]map[hrpc.RegionInfo]struct{}
 //@   at call append#1 ghost retrymark[rpc] == ghost("round")
 //@   at call append#2 ghost retrymark[rpc] == ghost("round")
+// (every call waited for has been routed: getRegionAndClientForRPC set its region; the connection cache is shared state)
+//@   at call handleResultError#1 assume-shared ghostat("callregion", rpc) != nil && rccNonNil(c.clients)
+//@   at call handleResultError#2 assume-shared ghostat("callregion", rpc) != nil && rccNonNil(c.clients)
 //@   ensures[C12] marksMonotone() && allMarked(retryables) && distinctCalls(retryables) && marksFrame(retryables)
 //@   ensures[C07] wfcUnretry(rpcs, results, rpcToRes, len(rpcs), unretryableError || ghostat("ctxdone", ctx) == 1)
 //@   ensures[C07] forall(p, 0 <= p && p < len(retryables), results[rpcToRes[retryables[p]]].Error != nil)
@@ -159,17 +172,20 @@ package gohbase
 // slots that do not belong to one of the first t groups still hold what they held at the head of the round
 //@ pred gohbase.untouched(cAndRs, res, rpcToRes, n, t) = forall(j, 0 <= j && j < n && forall(u, p, 0 <= u && u < t && 0 <= p && p < len(cAndRs[u].rpcs), rpcToRes[cAndRs[u].rpcs[p]] != j), res[j].Msg == athead("for", res[j].Msg) && res[j].Error == athead("for", res[j].Error))
 
-// WORK IN PROGRESS: the round structure below verifies only in part (see /verif/DESIGN.md, C07); the clauses are tagged WIP
-// so that no claimed check depends on them.
+// SendBatch. Proved: whole-batch rejection before anything is queued; positional result slots; a slot that holds a nil
+// error keeps its response and nil error through every later round and exit (step clause); every nil-error slot holds the
+// response received from its own call; retry rounds only resend calls collected by waitForCompletion, each once; rounds
+// are paced (at most two immediate retries, then the schedule). NOT proved (tagged WIP, checked by nobody, assumed by
+// nobody): `allOK ==> every error is nil` - see /verif/DESIGN.md.
 //@ func gohbase.(*client).SendBatch
 //@   requires sleepAndIncreaseBackoffOverride == nil
 //@   requires forall(k, 0 <= k && k < len(batch), batch[k] != nil)
 //@   requires marksBelow()
-//@   panics never[WIP]
-//@   ensures[WIP] len(res) == len(batch)
+//@   panics never[C07]
+//@   ensures[C07] len(res) == len(batch)
 //@   ensures[WIP] allOK ==> forall(j, 0 <= j && j < len(res), res[j].Error == nil)
-//@   ensures[WIP] forall(j, 0 <= j && j < len(res), res[j].Error != nil || recvd(old(batch)[j].ResultChan(), res[j]))
-//@   ensures[WIP] (exists(p, q, 0 <= p && p < q && q < len(batch), batch[p] == batch[q])) ==> ghost("queued") == old(ghost("queued")) && !allOK
+//@   ensures[C07] forall(j, 0 <= j && j < len(res), res[j].Error != nil || recvd(old(batch)[j].ResultChan(), res[j]))
+//@   ensures[C12] (exists(p, q, 0 <= p && p < q && q < len(batch), batch[p] == batch[q])) ==> ghost("queued") == old(ghost("queued")) && !allOK
 //@   loop "for i, rpc := range batch"#1 invariant len(res) == len(batch) && rpcToRes != nil && forall(k, 0 <= k && k < len(batch), batch[k] == old(batch[k]))
 //@   loop "for i, rpc := range batch"#1 invariant forall(k, 0 <= k && k < i, res[k].Error != nil)
 //@   loop "for i, rpc := range batch"#1 invariant ghost("queued") == old(ghost("queued")) && marksBelow()
@@ -179,9 +195,9 @@ package gohbase
 //@   loop "for" invariant len(res) == len(old(batch)) && rpcToRes != nil && marksBelow() && allocated(batch) && allocated(res)
 //@   loop "for" invariant sbOrig(old(batch), rpcToRes, len(res)) && sbCur(batch, old(batch), rpcToRes, len(res))
 //@   loop "for" invariant sbDone(res, batch, old(batch), rpcToRes, len(res)) && sbOwn(res, old(batch), len(res))
-//@   loop "for" invariant allOK == !unretryableErrorSeen && sbSeen(res, batch, rpcToRes, len(res), unretryableErrorSeen)
+//@   loop "for" invariant allOK == !unretryableErrorSeen
 //@   loop "for" invariant len(retries) == 0 && backoff >= 0
-//@   loop "for" step[WIP] forall(j, 0 <= j && j < len(res) && athead("for", res[j].Error) == nil, res[j].Error == nil && res[j].Msg == athead("for", res[j].Msg))
+//@   loop "for" step[C07] forall(j, 0 <= j && j < len(res) && athead("for", res[j].Error) == nil, res[j].Error == nil && res[j].Msg == athead("for", res[j].Msg))
 //@   at call findClients#1 ghost round == ghost("round") + 1
 //@   loop "for i, rpc := range batch"#2 invariant len(res) == len(old(batch)) && sbFrame(res, athead("for", batch), rpcToRes, len(res)) && sbOwn(res, old(batch), len(res))
 //@   loop "for client, rpcs := range rpcByClient" invariant carOK(cAndRs, rpcByClient) && forall(t, 0 <= t && t < len(cAndRs), visited(cAndRs[t].client))
@@ -196,3 +212,173 @@ package gohbase
 //@   loop "for _, cAndR := range cAndRs" invariant carOK(cAndRs, rpcByClient) && groupsOK(rpcByClient, athead("for", batch), len(athead("for", batch))) && groupsOrdered(rpcByClient)
 //@   loop "for _, cAndR := range cAndRs" invariant sbOrig(old(batch), rpcToRes, len(res)) && sbCur(athead("for", batch), old(batch), rpcToRes, len(res))
 //@   loop "for _, cAndR := range cAndRs" invariant allocated(res) && allocated(athead("for", batch)) && forall(rc, haskey(rpcByClient, rc) ==> allocated(rpcByClient[rc]) && rc != nil)
+// round pacing (C17): a round is followed by a wait unless it is one of at most two immediate retries; waits walk the schedule
+//@   loop "for" invariant[C17] 0 <= immediateRetries && immediateRetries <= 2 && onSched(backoff)
+//@   loop "for" invariant[C17] ghost("round") - old(ghost("round")) - (ghost("nsleeps") - old(ghost("nsleeps"))) == immediateRetries
+
+// ---- one connection per regionserver address (C20) ----
+// Uniq: no two cached connections have the same address.
+//@ pred gohbase.rccUniq(rcc) = forall(a, b, haskey(rcc.regions, a) && haskey(rcc.regions, b) && a != b, cast(a, "hrpc.RegionClient").Addr() != cast(b, "hrpc.RegionClient").Addr())
+//@ pred gohbase.rccNonNil(rcc) = rcc.regions != nil && forall(a, haskey(rcc.regions, a) ==> a != nil && rcc.regions[a] != nil && forall(r, haskey(rcc.regions[a], r) ==> r != nil))
+
+//@ func hrpc.RegionClient.Addr() (r)
+//@   pure
+
+// the connection factory passed to put: called only on a miss (ghost counter newclients), yields a connection for addr
+//@ func gohbase.(*clientRegionCache).put$newClient() (c)
+//@   modifies X.newclients
+//@   ensures c != nil && ghost("newclients") == old(ghost("newclients")) + 1 && c.Addr() == addr
+
+//@ func gohbase.(*clientRegionCache).put
+//@   requires rccNonNil(rcc) && rccUniq(rcc) && rcc.logger != nil
+//@   modifies D.map[hrpc.RegionClient]map[hrpc.RegionInfo]struct{}, V.map[hrpc.RegionClient]map[hrpc.RegionInfo]struct{}, C.map[hrpc.RegionClient]map[hrpc.RegionInfo]struct{}, D.map[hrpc.RegionInfo]struct{}, V.map[hrpc.RegionInfo]struct{}, C.map[hrpc.RegionInfo]struct{}, X.newclients
+//@   panics never[C20]
+// a cached connection for the address is returned and the factory is not called; otherwise the factory is called exactly once
+//@   ensures[C20] (exists(a, old(haskey(rcc.regions, a)) && cast(a, "hrpc.RegionClient").Addr() == addr)) ==> was(haskey(rcc.regions, r0))
+//@   ensures[C20] (exists(a, old(haskey(rcc.regions, a)) && cast(a, "hrpc.RegionClient").Addr() == addr)) ==> r0.Addr() == addr
+//@   ensures[C20] (exists(a, old(haskey(rcc.regions, a)) && cast(a, "hrpc.RegionClient").Addr() == addr)) ==> ghost("newclients") == old(ghost("newclients"))
+//@   ensures[C20] (forall(a, old(haskey(rcc.regions, a)) ==> cast(a, "hrpc.RegionClient").Addr() != addr)) ==> ghost("newclients") == old(ghost("newclients")) + 1
+//@   ensures[C20] haskey(rcc.regions, r0) && haskey(rcc.regions[r0], r) && r0.Addr() == addr
+//@   ensures[C20] rccUniq(rcc)
+//@   ensures[C20] forall(a, haskey(rcc.regions, a) == (old(haskey(rcc.regions, a)) || a == r0))
+//@   loop 1 invariant[C20] forall(a, visited(a) ==> cast(a, "hrpc.RegionClient").Addr() != addr)
+//@   loop 1 invariant[C20] forall(a, haskey(rcc.regions, a) == old(haskey(rcc.regions, a))) && ghost("newclients") == old(ghost("newclients")) && ghost("nheld") == old(ghost("nheld")) + 1
+
+//@ func gohbase.(*clientRegionCache).clientDown
+//@   requires rcc.regions != nil
+//@   modifies D.map[hrpc.RegionClient]map[hrpc.RegionInfo]struct{}, C.map[hrpc.RegionClient]map[hrpc.RegionInfo]struct{}
+//@   panics never[C20]
+// the connection is removed from the cache (so that put can create its replacement) and exactly its regions are returned
+//@   ensures[C20,C09] !haskey(rcc.regions, c) && forall(a, a != c ==> haskey(rcc.regions, a) == old(haskey(rcc.regions, a)) && rcc.regions[a] == old(rcc.regions[a]))
+//@   ensures[C20,C09] r0 == old(rcc.regions[c])
+
+// ---- retry pacing of a single request (C17) and which errors are retried (C04) ----
+// Ghost counters: attempts (requests handed to a connection), nsleeps (back-off waits), nsre (retries after a
+// NotServingRegionError, which are paced by the re-establishment of the region instead).
+//@ func gohbase.(*client).sendRPCToRegionClient
+//@   trusted "one attempt on a connection (ghost counter); effects on caches summarised as ghost regionstate"
+//@   modifies X.attempts, X.regionstate, X.ctxdone, X.callregion
+//@   ensures ghost("attempts") == old(ghost("attempts")) + 1
+
+//@ func hrpc.Call.Description() (r)
+//@   pure
+
+//@ func gohbase.(*client).SendRPC
+//@   requires sleepAndIncreaseBackoffOverride == nil && rpc != nil
+//@   at continue 1 ghost nretrylater == ghost("nretrylater") + 1
+//@   at continue 2 ghost nserver == ghost("nserver") + 1
+//@   at continue 3 ghost nsre == ghost("nsre") + 1
+// every further attempt follows one of the three retry-class cases (C04): attempts == 1 + retries through those cases
+//@   loop 1 invariant[C04] ghost("attempts") - old(ghost("attempts")) == (ghost("nretrylater") - old(ghost("nretrylater"))) + (ghost("nserver") - old(ghost("nserver"))) + (ghost("nsre") - old(ghost("nsre")))
+// attempts not preceded by a wait: at most two, and only after connection-level errors; the k-th wait lasts sched(k)
+//@   loop 1 invariant[C17] 0 <= serverErrorCount && backoff == sched(ghost("nsleeps") - old(ghost("nsleeps")))
+//@   loop 1 invariant[C17] ghost("nsleeps") >= old(ghost("nsleeps"))
+//@   loop 1 invariant[C17] (ghost("attempts") - old(ghost("attempts"))) - (ghost("nsleeps") - old(ghost("nsleeps"))) - (ghost("nsre") - old(ghost("nsre"))) == ite(serverErrorCount < 2, serverErrorCount, 2)
+// only the three retry classes lead to another attempt; any other outcome is returned as it is, in the same iteration (C04)
+//@   at return 4 assert[C04] !retryClass(err)
+
+// ---- lookups and re-establishment back off on the same schedule (C17); the establisher token (C09) ----
+//@ func gohbase.(*client).zkLookup
+//@   trusted "ZooKeeper lookup: counted as one lookup attempt (ghost)"
+//@   modifies X.lookups, X.ctxdone
+//@   ensures ghost("lookups") == old(ghost("lookups")) + 1
+//@ func gohbase.(*client).metaLookup
+//@   trusted "hbase:meta lookup: counted as one lookup attempt; a successful lookup yields a freshly parsed region (body verified under C01 for its filter part)"
+//@   modifies X.lookups, X.ctxdone, X.regionstate
+//@   ensures ghost("lookups") == old(ghost("lookups")) + 1
+//@   ensures r2 == nil ==> r0 != nil && fresh(r0) && ghostat("unavail", r0) == 0 && r0 != c.adminRegionInfo && r0 != c.metaRegionInfo
+//@ func gohbase.(*client).metaLookupForTable
+//@   trusted "hbase:meta table scan: counted as one lookup attempt"
+//@   modifies X.lookups, X.ctxdone, X.regionstate
+//@   ensures ghost("lookups") == old(ghost("lookups")) + 1
+//@ func gohbase.(*client).lookupRegion$cancel()
+//@   modifies X.ctxdone
+//@   ensures forall(k, old(ghostat("ctxdone", k)) == 1 ==> ghostat("ctxdone", k) == 1)
+//@   ensures ghostat("ctxdone", ctx) == old(ghostat("ctxdone", ctx))
+//@ func gohbase.(*client).lookupAllRegions$cancel()
+//@   modifies X.ctxdone
+//@   ensures forall(k, old(ghostat("ctxdone", k)) == 1 ==> ghostat("ctxdone", k) == 1)
+//@   ensures ghostat("ctxdone", ctx) == old(ghostat("ctxdone", ctx))
+
+//@ func gohbase.(*client).lookupRegion
+//@   requires sleepAndIncreaseBackoffOverride == nil && c.logger != nil && c.adminRegionInfo != nil && c.metaRegionInfo != nil
+//@   modifies X.lookups, X.ctxdone, X.regionstate, X.slept, X.nsleeps
+// every failed lookup is followed by a wait before the next one; the k-th wait lasts sched(k)
+//@   loop 1 invariant[C17] backoff == sched(ghost("nsleeps") - old(ghost("nsleeps"))) && ghost("nsleeps") >= old(ghost("nsleeps"))
+//@   loop 1 invariant[C17] ghost("lookups") - old(ghost("lookups")) == ghost("nsleeps") - old(ghost("nsleeps"))
+// the only errors: unknown table, client closed, or the context passed in is done (C09 relies on this)
+//@   ensures[C09,C17] r2 == nil || r2 == TableNotFound || r2 == ErrClientClosed || ghostat("ctxdone", ctx) == 1
+//@   ensures[C09] r2 == nil ==> r0 != nil && (r0 == c.adminRegionInfo || r0 == c.metaRegionInfo || (ghostat("unavail", r0) == 0 && !was(allocated(r0))))
+
+//@ func gohbase.(*client).lookupAllRegions
+//@   requires sleepAndIncreaseBackoffOverride == nil && c.logger != nil
+//@   loop 1 invariant[C17] backoff == sched(ghost("nsleeps") - old(ghost("nsleeps"))) && ghost("nsleeps") >= old(ghost("nsleeps"))
+//@   loop 1 invariant[C17] ghost("lookups") - old(ghost("lookups")) == ghost("nsleeps") - old(ghost("nsleeps"))
+
+//@ func gohbase.(*keyRegionCache).del
+//@   trusted "frame abstraction for the establisher: touches the location cache and marks the region dead, not the availability marks"
+//@   modifies X.regionstate, X.ctxdone
+//@ func gohbase.(*clientRegionCache).del
+//@   trusted "frame abstraction for the establisher: touches the connection cache and the region's client, not the availability marks"
+//@   modifies X.regionstate, X.regclient
+//@ func gohbase.(*keyRegionCache).put
+//@   trusted "frame abstraction for the establisher (the cache behaviour itself is the subject of C08)"
+//@   modifies X.regionstate, X.ctxdone
+// exactly the goroutine that created the mark starts the (single) establisher of the region: it hands over the token
+//@ func gohbase.(*client).reestablishRegion
+//@   requires reg != nil && ghostat("unavail", reg) == 1 && ghostat("token", reg) == 1
+//@   at spawn ghost token[reg] == 0
+// (configuration fixed at construction; the test hooks are nil - A7)
+//@   at call establishRegion#1 ghost closedexit == 0
+//@   at call establishRegion#1 assume-shared establishRegionOverride == nil && sleepAndIncreaseBackoffOverride == nil && c.logger != nil && c.adminRegionInfo != nil && c.metaRegionInfo != nil
+
+// a dead connection: it leaves the cache, and every region that used it is marked unavailable and gets an establisher
+// unless one is already running (C09); regions are only ever marked here, never released
+//@ func gohbase.(*client).clientDown
+//@   requires reg != nil && rccNonNil(c.clients)
+//@   modifies X.unavail, X.token, X.regclient, D.map[hrpc.RegionClient]map[hrpc.RegionInfo]struct{}, C.map[hrpc.RegionClient]map[hrpc.RegionInfo]struct{}
+//@   panics never[C09]
+//@   ensures[C09] ghostat("unavail", reg) == 1
+//@   ensures[C09] forall(k, old(ghostat("unavail", k)) == 1 ==> ghostat("unavail", k) == 1)
+//@   ensures[C09] forall(k, ghostat("token", k) == old(ghostat("token", k)) || ghostat("token", k) == 0)
+//@   loop 1 invariant[C09] ghostat("unavail", reg) == 1 && forall(k, old(ghostat("unavail", k)) == 1 ==> ghostat("unavail", k) == 1)
+//@   loop 1 invariant[C09] forall(k, ghostat("token", k) == old(ghostat("token", k)) || ghostat("token", k) == 0)
+//@   loop 1 invariant[C09] forall(k, haskey(downregions, k) ==> k != nil)
+//@ func gohbase.isRegionEstablished
+//@   trusted "probe request: counted as an attempt; no effect on the establisher token"
+//@   modifies X.attempts, X.callregion, X.ctxdone
+//@ func gohbase.fullyQualifiedTable
+//@   trusted "pure helper"
+//@   modifies nothing
+//@ func gohbase.(*client).establishRegion$newRegionClientFn(addr, ctype, queueSize, flushInterval, effectiveUser, readTimeout, codec, dialer, log) (rc)
+//@   modifies X.newclients
+//@   ensures rc != nil
+
+// The establisher of a region holds its token (the region is marked unavailable and only the establisher will mark it
+// available again). Every exit path releases each token it holds exactly once - calling MarkAvailable without the token
+// would close a nil channel - except when the client itself has been closed. Every iteration starts with the back-off
+// wait (none before the first attempt), and the waits walk the schedule.
+//@ func gohbase.(*client).establishRegion$cancel()
+//@   modifies X.ctxdone
+
+//@ func gohbase.(*client).establishRegion
+//@   at call put#2 assume-shared rccNonNil(c.clients) && rccUniq(c.clients) && c.clients.logger != nil
+//@   at call clientDown#1 assume-shared rccNonNil(c.clients)
+//@   at call clientDown#2 assume-shared rccNonNil(c.clients)
+//@   requires establishRegionOverride == nil && sleepAndIncreaseBackoffOverride == nil && reg != nil && ghostat("unavail", reg) == 1 && ghost("closedexit") == 0
+//@   requires c.logger != nil && c.adminRegionInfo != nil && c.metaRegionInfo != nil
+//@   panics never[C09]
+//@   at call sleepAndIncreaseBackoff#1 assert[C17] backoff == 0 || onSched(backoff)
+//@   loop 1 invariant[C09] reg != nil && ghostat("unavail", reg) == 1
+//@   loop 1 invariant[C17] backoff == 0 || onSched(backoff)
+// every exit releases the waiters of the region it was started for, and of the replacement region once adopted - except
+// when the whole client has been closed (ghost closedexit)
+//@   at return 5 ghost closedexit == 1
+//@   loop 1 invariant[C09] ghost("closedexit") == old(ghost("closedexit")) && ghostat("nrel", old(reg)) >= old(ghostat("nrel", reg)) + ite(reg == old(reg), 0, 1)
+// (at least once here; never a second time without a new mark: MarkAvailable requires the region to be marked)
+//@   ensures[C09] ghost("closedexit") != old(ghost("closedexit")) || ghostat("nrel", reg) >= old(ghostat("nrel", reg)) + 1
+//@   at return 2 assert[C09] ghostat("unavail", reg) == 0
+//@   at return 6 assert[C09] ghostat("unavail", reg) == 0
+//@   at return 8 assert[C09] ghostat("unavail", reg) == 0
+//@   at return 9 assert[C09] ghostat("unavail", reg) == 0
+//@   at return 10 assert[C09] ghostat("unavail", reg) == 0
